@@ -44,6 +44,9 @@ pub fn busy_pixels(rng: &mut Rng, n: usize) -> Vec<u32> {
         .collect()
 }
 
+/// set by the Miri deepening, where every pixel costs a thousand times more
+pub static NO_LARGE_SURFACES: std::sync::atomic::AtomicBool = std::sync::atomic::AtomicBool::new(false);
+
 pub fn gen_surface(rng: &mut Rng, max: i32, allow_zero: bool, transparent_ok: bool) -> SurfSpec {
     let pick = |rng: &mut Rng| loop {
         // biased to small
@@ -52,7 +55,29 @@ pub fn gen_surface(rng: &mut Rng, max: i32, allow_zero: bool, transparent_ok: bo
             return s;
         }
     };
-    if max >= 33 && rng.chance(1, 200) {
+    if max >= 16 && !NO_LARGE_SURFACES.load(std::sync::atomic::Ordering::Relaxed) {
+        // Thresholds in the library (a scratch row, a chunk size, a narrower integer type) show
+        // only beyond some size: now and then a surface of more than 2^14, 2^16 or 2^20 pixels,
+        // or one more than 8192 pixels long. Rare, because every call on such a surface costs
+        // as much as thousands of ordinary runs.
+        let big = match rng.below(48000) {
+            0 => Some(rng.pick(&[(1100, 1000), (4200, 260), (1040, 1040)])),
+            1..=15 => Some((rng.range(257, 330), rng.range(257, 300))),
+            16..=95 => Some((rng.range(130, 220), rng.range(127, 160))),
+            96..=107 => {
+                let long = rng.range(8200, 10500);
+                let short = rng.range(1, 3);
+                Some(if rng.chance(1, 2) { (long, short) } else { (short, long) })
+            }
+            _ => None,
+        };
+        if let Some((w, h)) = big {
+            let n = (w * h) as usize;
+            let pixels = if transparent_ok && rng.chance(1, 6) { vec![0; n] } else { busy_pixels(rng, n) };
+            return SurfSpec { w, h, pixels };
+        }
+    }
+    if max >= 16 && rng.chance(1, 200) {
         // now and then a surface longer than 1024 (sometimes 2048) pixels in one direction
         // (chunked loops, fixed-size scratch rows, u16 coordinates, many sample rows)
         let long = if rng.chance(1, 3) { rng.range(2049, 2600) } else { rng.range(1025, 1400) };
@@ -118,7 +143,44 @@ pub struct PathCfg {
 pub const PATH_ANY: PathCfg = PathCfg { curves: true, allow_no_moveto: true, max_subpaths: 3, max_verts: 6 };
 pub const PATH_POLY: PathCfg = PathCfg { curves: false, allow_no_moveto: true, max_subpaths: 3, max_verts: 6 };
 
+/// Many subpaths in one path: a grating of narrow upright bars crossed by a shallow wedge (an
+/// edge that overtakes dozens of others within one sample row), or a stack of more than a
+/// hundred nested contours of one orientation (winding numbers beyond a byte).
+pub fn gen_crowded_path(rng: &mut Rng, w: i32, h: i32) -> PathSpec {
+    let mut segs = Vec::new();
+    let (wf, hf) = (w.max(2) as f32, h.max(2) as f32);
+    if rng.chance(2, 3) {
+        let n = rng.range(20, 90);
+        let pitch = (wf / n as f32).max(0.5);
+        let (y0, y1) = (rng.f32_in(-1., hf * 0.3), rng.f32_in(hf * 0.6, hf + 1.));
+        for i in 0..n {
+            let x = i as f32 * pitch + rng.f32_in(0., pitch * 0.2);
+            segs.push(Seg::Rect(F(x), F(y0), F(pitch * 0.5), F(y1 - y0)));
+        }
+        // the wedge: from the right end to the left end, rising or falling by a pixel or less
+        let y = rng.f32_in(y0.max(0.), y1.min(hf));
+        let dy = rng.f32_in(0.1, 1.2);
+        segs.push(Seg::M(F(n as f32 * pitch + 1.), F(y)));
+        segs.push(Seg::L(F(-1.), F(y + dy)));
+        segs.push(Seg::L(F(-1.), F(y + dy + rng.f32_in(0.3, 2.))));
+        segs.push(Seg::Z);
+    } else {
+        let n = rng.range(100, 170);
+        let (x, y) = (rng.f32_in(-1., wf * 0.4), rng.f32_in(-1., hf * 0.4));
+        let (rw, rh) = (rng.f32_in(2., wf), rng.f32_in(2., hf));
+        let shrink = if rng.chance(1, 2) { 0. } else { 0.01 };
+        for i in 0..n {
+            let d = i as f32 * shrink;
+            segs.push(Seg::Rect(F(x + d), F(y + d), F(rw - 2. * d), F(rh - 2. * d)));
+        }
+    }
+    PathSpec::new(rng.chance(1, 3), segs)
+}
+
 pub fn gen_path(rng: &mut Rng, w: i32, h: i32, cfg: PathCfg) -> PathSpec {
+    if cfg.max_subpaths >= 3 && rng.chance(1, 150) {
+        return gen_crowded_path(rng, w, h);
+    }
     let quarter = rng.chance(1, 2);
     let mut segs = Vec::new();
     let shape = rng.below(12);
@@ -563,6 +625,18 @@ pub fn gen_stroke_style(rng: &mut Rng, e: i32) -> StrokeSpec {
 }
 
 pub fn gen_clip_rect(rng: &mut Rng, w: i32, h: i32) -> [i32; 4] {
+    if rng.chance(1, 12) {
+        // coordinates far beyond the surface: "everything" rectangles, sentinels, list items far
+        // off screen (beyond what 16 bits hold)
+        let far = |rng: &mut Rng| rng.pick(&[40000, 100000, 32768, 65536, i32::MAX / 2, 1 << 24]);
+        return match rng.below(5) {
+            0 => [-far(rng), -far(rng), far(rng), far(rng)],
+            1 => [0, 0, far(rng), far(rng)],
+            2 => [rng.range(0, w), far(rng), rng.range(0, w) + far(rng) / 2, far(rng) + 100],
+            3 => [-far(rng), rng.range(0, h.max(1)), rng.range(1, w.max(2)), far(rng)],
+            _ => [far(rng), 0, far(rng) + 50, h],
+        };
+    }
     match rng.below(10) {
         0 => [0, 0, w, h],
         1 => [-rng.range(0, 20), -rng.range(0, 20), w + rng.range(0, 20), h + rng.range(0, 20)],
